@@ -684,6 +684,20 @@ def c11(res):
         g = pred_game(rng, kind=KINDS[k % 5], stratum="near-identical")
         res.case(g); res.count("near_identical_games")
         c11_one(res, g)
+    # ... and a fixed family (no random choice): two one-player teams 1..12 ulps apart next to a third team, both listings, every class
+    if res.shard == 0:
+        for kind in KINDS:
+            for m0 in (1.0, 25.0, 3.0):
+                for s0 in (25.0 / 3, 2.0):
+                    for third in (25.0, 18.0, 30.0):
+                        m = m0
+                        for k in range(1, 13):
+                            m = math.nextafter(m, math.inf)
+                            for teams in ([[(m0, s0)], [(m, s0)], [(third, 25.0 / 3)]], [[(third, 25.0 / 3)], [(m, s0)], [(m0, s0)]]):
+                                g = dict(kind=kind, beta=core.DEFAULTS["beta"], kappa=core.DEFAULTS["kappa"], tau=core.DEFAULTS["tau"], ls=False,
+                                         gamma=("D", 0.0), teams=teams, _no_history=True)
+                                res.count("near_identical_family_games")
+                                c11_one(res, g)
     for g in games[:: max(1, len(games) // 150)]:
         inplace_sequence(res, g, rng, "C11")
         reconfigure_sequence(res, g, rng, "C11")
